@@ -87,6 +87,34 @@ def step(ctx, *args):
     return a == c
 
 
+def loadused(ctx, *args):
+    """load of a tool-written file (replace) into a *used* instance == load into a fresh instance"""
+    from ..shims import MemFS, install_fs
+
+    tid = ctx["tree"]
+    dom = Dom.from_json(ctx["dom"])
+    slots = ST.layout(tid)
+    n = ctx["nstate"]
+    v1 = ST.decode(slots, dom, args[:n], fixed=ctx.get("fixed"))
+    v2 = ST.decode(slots, dom, args[n : 2 * n], fixed=ctx.get("fixed2"))
+    fs = MemFS()
+    install_fs(fs, K)
+    k2 = ST.build(tid)
+    ST.apply_state(k2, slots, v2)
+    k2.write_config("/m/f")
+    k1 = ST.build(tid)
+    ST.apply_state(k1, slots, v1)
+    ST.snapshot(k1)
+    k1.load_config("/m/f", replace=True)
+    kf = ST.build(tid)
+    kf.load_config("/m/f")
+    a = ST.snapshot(k1)
+    if a != ST.snapshot(kf):
+        return False
+    k1._invalidate_all()
+    return a == ST.snapshot(k1)
+
+
 def _samples(rng, params, pre_bounds, n=3):
     out = []
     for _ in range(n):
@@ -156,6 +184,22 @@ def jobs(tier, seed, excluded=()):
                             tree=tid,
                         )
                     )
+    # loads of tool-written files into used instances
+    ltrees = ["T07", "T06", "E_choice_default", "E_setdef_src", "T03", "E_choice_member_dep"] if tier == "quick" else ["T01", "T03", "T05", "T06", "T07", "T08", "T12", "T15", "E_choice_default", "E_choice_dep", "E_choice_member_dep", "E_setdef_src", "E_set_src", "E_select"]
+    for tid in ltrees:
+        slots = ST.layout(tid)
+        for pi in range(2 if tier == "quick" else 6):
+            p1, _ = ST.partitions(slots, dom, 12 if tier == "quick" else 30, 1, rng)
+            p2, _ = ST.partitions(slots, dom, 12 if tier == "quick" else 30, 1, rng)
+            sp1, pre1 = ST.params_for(slots, dom, prefix="u", fixed=p1[0])
+            sp2, pre2 = ST.params_for(slots, dom, prefix="w", fixed=p2[0])
+            if len(sp1) != len(sp2):
+                # keep one nstate for both halves: pad by using the same free set
+                p2 = p1
+                sp2, pre2 = ST.params_for(slots, dom, prefix="w", fixed=p2[0])
+            f1 = [sl for sl in slots if sl.name not in p1[0]]
+            f2 = [sl for sl in slots if sl.name not in p2[0]]
+            out.append(Job("C03", "C03-%s-loadused-p%d" % (tid, pi), "vk.props.c03", "loadused", {"tree": tid, "dom": dom.to_json(), "nstate": len(sp1), "fixed": p1[0], "fixed2": p2[0]}, sp1 + sp2, pre1 + " and " + pre2, timeout=tmo * 2, samples=[_rand_state(rng, f1, dom) + _rand_state(rng, f2, dom) for _ in range(3)], tree=tid))
     return out
 
 
